@@ -2161,7 +2161,7 @@ class ObjectDomain(LazyGenerators, EffectDomain):
             fnv = None
             if isinstance(f_, ast.Name) and st.has(fr.local(f_.id)):
                 fnv = st.get(fr.local(f_.id))
-            if fnv is not None and ((isinstance(fnv, tuple) and fnv[:1] and fnv[0] in CALLABLE_TAGS + ("wobj",) and not (fnv[0] == "func" and len(fnv) == 2)) or is_inst(fnv)):
+            if fnv is not None and ((isinstance(fnv, tuple) and fnv[:1] and fnv[0] in CALLABLE_TAGS + ("wobj",) and not (fnv[0] == "func" and len(fnv) == 2 and getattr(fnv[1], "_class", None) is None)) or is_inst(fnv)):
                 out = []
                 for bad, pos, kw, s2 in self._call_args(interp, call, st, fr):
                     if bad is not None:
